@@ -308,6 +308,21 @@ impl Monitor for C06 {
 					}
 				}
 			}
+			// a stream whose seek fails (unseekable behind a Seek facade): whatever mode seeks must
+			// surface the failure
+			{
+				let src = Src::new(bytes.clone(), Policy::Whole).with_failing_seek();
+				let stats = src.stats();
+				let r = common::slp_read_src(src, mode >= 2 && mode <= 3, mode % 2 == 1);
+				if stats.fault_delivered() {
+					out.evals += 1;
+					match r {
+						Err(Fail::Err(_)) => out.count("seek_failure_surfaced_as_err", 1),
+						Ok(_) => out.violate("seek-fault-swallowed", format!("seed [{}], mode {}: seek failed but the reader returned Ok", seed.name, MODES[mode]), Some(&bytes)),
+						Err(Fail::Panic(p)) => out.violate(format!("panic;{};{}", norm_loc(&p.loc), norm_msg(&p.msg)), format!("seed [{}]: failing seek -> panic at {}: {}", seed.name, p.loc, p.msg), Some(&bytes)),
+					}
+				}
+			}
 			out.class(format!("io-fault|{}|{}", regime(&seed.model), MODES[mode]));
 			out.count("faults_delivered", delivered);
 			out.sample = Some(json!({"case": idx, "seed": seed.name, "mode": MODES[mode], "faults_delivered_one_per_read_call_x_4_kinds": delivered}));
